@@ -335,6 +335,50 @@ pub fn run(seed: u64, count: usize, outdir: &str, which: &str) -> std::io::Resul
         distinct.insert(res.case.clone());
         cases.push_str(&res.case); cases.push('\n'); impls.push_str(&res.impl_line); impls.push('\n');
     }
+    // ---- one long-lived context through a history of build / import / evaluate / drop rounds:
+    // what an import returns must not depend on trees that no longer exist
+    if which == "c12" {
+        let mut r = rng.fork();
+        let rounds = (count / 4).clamp(40, 4000);
+        let mut ctx = Context::new();
+        for round in 0..rounds {
+            if round % 64 == 63 { ctx = Context::new(); }
+            let cfg = TreeCfg { ops: r.range(2, 14), remaps: 0, tame: true, hash_ops: false };
+            let tree = gen_tree(&mut r, &cfg, &[]);
+            let node = ctx.import(&tree);
+            let p = [gen_tame(&mut r) + 0.0137, gen_tame(&mut r) - 0.0071, gen_tame(&mut r) + 0.0213];
+            let (mut fin, mut zero) = (true, false);
+            let want = eval_tree(&*tree, p, &HashMap::new(), &mut fin, &mut zero);
+            let got = ctx.eval_xyz(node, p[0], p[1], p[2]).unwrap_or(f32::NAN);
+            if fin && !(got == want || (got.is_nan() && want.is_nan())) && !(zero && has_sign_observer(&*tree, 0)) {
+                fails += 1; writeln!(oracle, "FAIL case=-3 kind=stale-import round {round} of a long-lived context: imported={got} direct={want} point={p:?}").unwrap(); break;
+            }
+            let e = ctx.export(node).unwrap();
+            if ctx.import(&e) != node { fails += 1; writeln!(oracle, "FAIL case=-3 kind=stale-import round {round} of a long-lived context: import(export(n)) != n").unwrap(); break; }
+            drop(e); drop(tree);
+        }
+        *kinds.entry("long-lived-context-rounds".into()).or_default() += rounds;
+        // ---- Context::from_text: a decimal constant must become the nearest f32 (what `str::parse::<f32>` gives),
+        // also for literals just beyond the midpoint of two f32 values written with more digits than an f64 holds
+        for k in 0..200 {
+            let c = if k % 3 == 0 { gen_tame(&mut r) } else { gen_f32(&mut r, 0.0) };
+            if !c.is_finite() || c == 0.0 { continue; }
+            let next = f32::from_bits(c.to_bits() + 1);
+            if !next.is_finite() { continue; }
+            let mid = (c as f64 + next as f64) / 2.0;                 // exact in f64
+            let mut lit = format!("{:.180}", mid);                    // its exact decimal expansion (padded with zeros)
+            if !lit.contains('.') { continue; }
+            match k % 4 { 0 => lit.push('1'), 1 => { /* exactly the midpoint: ties to even */ } 2 => { lit = format!("{c:?}"); } _ => lit.push_str("0000000000000009") }
+            let text = format!("# test\n_0 const {lit}\n");
+            let want: f32 = match lit.parse() { Ok(v) => v, Err(_) => continue };
+            match Context::from_text(text.as_bytes()) {
+                Ok((cx, n)) => { let got = cx.get_const(n).unwrap_or(f32::NAN);
+                    if got.to_bits() != want.to_bits() { fails += 1; writeln!(oracle, "FAIL case=-4 kind=text-constant from_text reads `{}` as {got:?} ({:#x}), the nearest f32 is {want:?} ({:#x})", &lit[..lit.len().min(60)], got.to_bits(), want.to_bits()).unwrap(); break; } }
+                Err(e) => { fails += 1; writeln!(oracle, "FAIL case=-4 kind=text-constant from_text rejects `{}`: {e:?}", &lit[..lit.len().min(60)]).unwrap(); break; }
+            }
+        }
+        *kinds.entry("text-constants".into()).or_default() += 200;
+    }
     // corpus: identity-elimination changes the sign of a zero, which atan2 observes (known finding)
     if which == "c12" {
         let t = (Tree::constant(0.0) - Tree::x()).atan2(-1.0);
